@@ -276,6 +276,51 @@ def random_module(rng: random.Random, max_claims=6, with_imports=True, syms=SYMS
     return Built(mod, tags, desc, pool)
 
 
+def tautology_module(rng: random.Random) -> Built:
+    """a module whose claims are proved by the tautology prover (derived-rule library end to end)"""
+    T = repo.mod('tautology').Tautology
+    P = repo.P()
+    mod = T()
+    mod._claims = []
+    mod._proof_expressions = []
+    desc = ['Tautology library module']
+    n = 0
+    for _ in range(12):
+        if n >= rng.randint(1, 2):
+            break
+        vs = [P.MetaVar(i) for i in range(rng.randint(1, 2))]
+
+        def f(d):
+            if d == 0 or rng.random() < 0.3:
+                return rng.choice(vs + [P.bot()])
+            r = rng.random()
+            if r < 0.4:
+                return P.Implies(f(d - 1), f(d - 1))
+            if r < 0.6:
+                return P.neg(f(d - 1))
+            if r < 0.8:
+                return P._or(f(d - 1), f(d - 1))
+            return P._and(f(d - 1), f(d - 1))
+        p = f(2)
+        try:
+            res = mod.prove_tautology(p)
+        except AssertionError:
+            continue
+        if res is None:
+            continue
+        ok, th = res
+        if any(E(th.conc) == E(c) for c in mod.get_claims()):
+            continue
+        mod.add_claim(th.conc)
+        mod.add_proof_expression(th)
+        desc.append(f'claim {th.conc} by prove_tautology({p}) -> {ok}')
+        n += 1
+    if not n:
+        th = mod.imp_refl(P.MetaVar(0))
+        mod.add_claim(th.conc); mod.add_proof_expression(th)
+    return Built(mod, {'tautology_library', 'claims>=2' if n >= 2 else 'single_claim'}, desc)
+
+
 def serialize(mod, directory: Path, name: str, optimize: bool, fmt='binary'):
     """Runs the real ProofExp.serialize; returns (gamma, claim, proof) bytes (or text for pretty)."""
     PR = repo.mod('proof')
